@@ -15,6 +15,10 @@ CLAIMED = {
  "C10": dict(text="Two-frame series with symbolic tangents and uninterpreted back-ends: store contents after a solve are compared term-by-term with the back-end result, and every bounded call history (symbolic call choices) is compared with a fresh object.",
              note="Histories: 4 warm-up builds + 1 (quick) / 2 (thorough) free calls + canonical calls; T3 (K3 thorough); tangent stub contract; back-ends deterministic.",
              ref="3/C10"),
+ "C11": dict(text="Three solver-based engines on the real resampling code: CrossHair explores generate_mesh's sampling kernel for every interface length in the bound; a bit-precise QF_BVFP lemma, extracted from the current AST, shows that the float index arithmetic equals floor(L*i/ne) and yields a strictly increasing in-range subsequence for L up to 4096; symx runs whole catalogue meshes with symbolic coordinates (junction positions, subsequences, idempotence, midpoint contraction).",
+             technique="CrossHair symbolic execution + bit-precise SMT (QF_BVFP, cvc5/z3) lemma from the AST + bounded symbolic execution over reals",
+             note="create_edges_new stubbed for the kernel harness; L <= 41 (kernel), L <= 4096 (lemma), ne <= 12; catalogue meshes with 0..8 interior points; parsed skeletons / dumps are outside.",
+             ref="3/C11"),
  "C16": dict(text="Symbolic unit tangents, exact arccos comparison through monotonicity; the flagged-junction set, the excluded interfaces, the -1 re-insertion and the restricted system are each compared with an oracle computed from the tissue description, for every tangent configuration.",
              note="T3, K3 (K4 thorough); limits 0.5pi..pi, default, inf; cos(limit) is the nearest double; back-end contracts as in C05.",
              ref="3/C16"),
